@@ -1,4 +1,4 @@
-// C15 — 2FA SRP answers: correspondence of srp.SRP.Hash with the Lean model TdModel.C15 (A and M1
+// C15 — 2FA SRP answers: correspondence of srp.SRP.Hash and srp.SRP.NewHash with the Lean model TdModel.C15 (A and M1
 // byte exact; PH1 against an independent computation), plus the property monitor: an independent
 // server-side verifier accepts the answer exactly when the password is the verifier's password,
 // and invalid groups are refused.
@@ -434,6 +434,63 @@ func run(c *hc.Ctx) error {
 		}
 		if valid { // (a random candidate happened to be valid: cannot happen in practice)
 			continue
+		}
+		cs = append(cs, cmp{line, out})
+	}
+
+	// ---- 3b. SRP.NewHash (setting a new password): (padded verifier, salt1 ‖ 32 random bytes); then a login
+	// against the stored hash with the same password must be accepted
+	for i := 0; i < c.N(4, 40); i++ {
+		p := sps[r.Intn(len(sps))]
+		g := validG(p)
+		pw, s1, s2 := genBytes("pw"), genBytes("salt1"), genBytes("salt2")
+		tl := 32
+		if r.Chance(15) {
+			tl = r.Intn(32)
+		}
+		tape := r.Bytes(tl + r.Intn(3))
+		in := srp.Input{Salt1: s1, Salt2: s2, G: g, P: p.Bytes()}
+		var hash, salt []byte
+		out := func() (o string) {
+			defer func() {
+				if rec := recover(); rec != nil {
+					o = fmt.Sprintf("panic:%v", rec)
+				}
+			}()
+			h, ns, err := srp.NewSRP(bytes.NewReader(tape)).NewHash(pw, in)
+			if err != nil {
+				if strings.Contains(err.Error(), "validate algo") {
+					return "err bad-group"
+				}
+				return "err tape"
+			}
+			hash, salt = h, ns
+			return "ok"
+		}()
+		kd := make([]byte, 64)
+		if len(tape) >= 32 {
+			kd = pbk(ph1(pw, append(append([]byte{}, s1...), tape[:32]...), s2), append(append([]byte{}, s1...), tape[:32]...))
+		}
+		line := fmt.Sprintf("newhash %d %s 1 1 %s %s %s %s %s", g, hc.Hex(p.Bytes()), hc.Hex(pw), hc.Hex(s1), hc.Hex(s2), hc.Hex(tape), hc.Hex(kd))
+		c.Eval(line, true)
+		c.Count("newhash." + out)
+		if out == "ok" {
+			newSalt := append(append([]byte{}, s1...), tape[:32]...)
+			acc := newAccount(p, g, pw, newSalt, s2, []byte("x"))
+			if !bytes.Equal(salt, newSalt) || !bytes.Equal(hash, pad(acc.v)) {
+				c.Fail("srp-newhash-not-spec", line, fmt.Sprintf("NewHash = (%s, %s), specification gives (%s, %s)", hc.Hex(hash), hc.Hex(salt), hc.Hex(pad(acc.v)), hc.Hex(newSalt)))
+			}
+			// login against the stored hash
+			acc.v = new(big.Int).SetBytes(hash)
+			acc.kv = new(big.Int).Mod(new(big.Int).Mul(acc.k, acc.v), p)
+			b := new(big.Int).SetBytes(r.Bytes(32))
+			ans, o2 := call(pw, pad(acc.B(b)), r.Bytes(256), srp.Input{Salt1: salt, Salt2: s2, G: g, P: p.Bytes()})
+			if o2 != "ok" || !acc.accepts(b, ans.A, ans.M1) {
+				c.Fail("srp-newhash-login", line, "login with the same password against the hash returned by NewHash was not accepted: "+o2)
+			}
+			out = fmt.Sprintf("ok %s %s %s", hc.Hex(hash), hc.Hex(salt), hc.Hex(ph1(pw, newSalt, s2)))
+		} else if len(tape) >= 32 {
+			c.Fail("srp-newhash-refused", line, out)
 		}
 		cs = append(cs, cmp{line, out})
 	}
